@@ -551,7 +551,7 @@ class StmtMixin(CallMixin):
         for n in body:
             for x in ast.walk(n):
                 if isinstance(x, (ast.Await, ast.Yield, ast.YieldFrom)):
-                    return None
+                    continue        # the suspension itself writes nothing of ours; havoc_loop adds the yield havoc
                 if isinstance(x, ast.Attribute) and isinstance(x.ctx, (ast.Store, ast.Del)):
                     ws |= self.fields_named(x.attr)
                 elif isinstance(x, ast.Subscript) and isinstance(x.ctx, (ast.Store, ast.Del)):
@@ -752,6 +752,11 @@ class StmtMixin(CallMixin):
             elif v.ty == PYOBJ and v.t.kind == "setiter":
                 a = v.t.set
                 res.append((s2, {"kind": "set", "set": V(a.ty, a.t), "ety": a.ty.elem}))
+            elif isinstance(v.ty, Ref) and getattr(C.CLASSES.get(v.ty.cls), "iter_field", None):
+                # an object whose __iter__ yields the elements of one of its (ghost) list fields
+                fld = C.CLASSES[v.ty.cls].iter_field
+                lst = self.hread(s2, v.t, v.ty.cls, fld)
+                res.append((s2, {"kind": "list", "list": V(lst.ty, lst.t)}))
             else:
                 raise Unsupported("iteration over %s (line %s)" % (v.ty, s.lineno))
         return res
